@@ -550,7 +550,7 @@ impl Prop for C12P {
     }
     fn plan(&self, tier: Tier, _seed: u64) -> Plan {
         let mut p = Plan::new(
-            vec![sec("handmade-configurations", 39), sec("punched-terms", tier.pick(40_000, 400_000)), sec("unrelated-pairs", tier.pick(8_000, 80_000))],
+            vec![sec("handmade-configurations", 39), sec("punched-terms", tier.pick(80_000, 400_000)), sec("unrelated-pairs", tier.pick(16_000, 80_000))],
             "1-4 holes (fresh or shared cells, shift 0..3 bounded by the binder depth) punched at arbitrary positions into hole-free well-typed terms from the typed generator, unified against the original, a beta-expanded and a definition-wrapped variant, in both argument orders; pairs of unrelated terms and of a term with a structurally edited copy of itself; hole-free parts behind already solved holes; hand-made occurs-check, scope-escape and shared-cell configurations with and without context parameters; after every successful call the cells are inspected for cycles, scope and consistency; non-trivial = distinct pair on which unify succeeded",
         );
         p.assumptions = vec![
